@@ -147,7 +147,7 @@ theorem C06_full_partial_leaf_component_leaves_nothing (env : Env) (i : Nat) (na
 
 /-- **Trees of components leave nothing behind — any depth, any width.**  `{% component name … %}{% endcomponent %}` where
 no component encloses the tag, over *any* library whose templates are built from text, `{{ }}`, if / for / with, elements,
-slots (not flagged `default`) and component tags whose bodies are empty or hold `{% fill "name" %}` tags (`GoodLib`: components nest through their templates, repeat in loops, may recurse)
+slots (not flagged `default`) and component tags whose bodies are empty, hold `{% fill "name" %}` tags or are implicit default content (`GoodLib`: components nest through their templates, repeat in loops, may recurse)
 with data from the call.  `ComponentNode.render` → `_render_impl` → the `while` loop of `component_post_render` over
 however many queued renderers the tree unfolds: when the render returns, `component_context_cache`,
 `component_renderer_cache` and `child_component_attrs` hold exactly the entries they held before (no entry of this
@@ -157,7 +157,7 @@ fault injection (a run in which a callback raised does not return).  Proved with
 (`Djc.Proofs.Tree.LInv`), by mutual induction over the seven functions of the pipeline. -/
 theorem C06_full_partial_component_trees_leave_nothing (env : Env) (hlib : Djc.Proofs.Tree.GoodLib env) (fuel : Nat)
     (name : Str) (kwargs : List (Str × Expr)) (only dyn : Bool) (body : List Node) (ctx : Ctx) (w w' : World) (toks : List Tok)
-    (hd : isDynName name = false) (hb : Djc.Proofs.Tree.fbody body = true) (hc : Djc.Proofs.Plain.ctxFree ctx = true)
+    (hd : isDynName name = false) (hb : Djc.Proofs.Tree.gbody body = true) (hc : Djc.Proofs.Plain.ctxFree ctx = true)
     (hw : Djc.Proofs.Tree.WInv w)
     (hext : isExtracting ctx = false)
     (hpar : Djc.Proofs.Tree.parentOf (if only || env.isolated then isolatedCopy ctx else ctx) = none)
@@ -188,7 +188,7 @@ registered under an id not generated yet: the residue of the failure — the lis
 `error-leaves-registry-entries` — lies entirely under ids of the failed render. -/
 theorem C06_full_partial_failed_tree_render_disturbs_nothing_older (env : Env) (hlib : Djc.Proofs.Tree.GoodLib env) (fuel : Nat)
     (name : Str) (kwargs : List (Str × Expr)) (only dyn : Bool) (body : List Node) (ctx : Ctx) (w w' : World) (e : Err)
-    (hd : isDynName name = false) (hb : Djc.Proofs.Tree.fbody body = true) (hc : Djc.Proofs.Plain.ctxFree ctx = true)
+    (hd : isDynName name = false) (hb : Djc.Proofs.Tree.gbody body = true) (hc : Djc.Proofs.Plain.ctxFree ctx = true)
     (hw : Djc.Proofs.Tree.WInv w)
     (h : (renderCompTag env fuel name kwargs only dyn body ctx).run.run w = (.error e, w')) :
     w.nextId ≤ w'.nextId ∧
@@ -208,10 +208,10 @@ to the numbering of ids is decided per program by the correspondence, stream `fa
 theorem C06_full_partial_render_after_failed_render (env : Env) (hlib : Djc.Proofs.Tree.GoodLib env) (fuel fuel2 : Nat)
     (name name2 : Str) (kwargs kwargs2 : List (Str × Expr)) (only dyn only2 dyn2 : Bool) (body body2 : List Node) (ctx ctx2 : Ctx)
     (w w1 w2 : World) (e : Err) (toks : List Tok)
-    (hd : isDynName name = false) (hb : Djc.Proofs.Tree.fbody body = true) (hc : Djc.Proofs.Plain.ctxFree ctx = true)
+    (hd : isDynName name = false) (hb : Djc.Proofs.Tree.gbody body = true) (hc : Djc.Proofs.Plain.ctxFree ctx = true)
     (hw : Djc.Proofs.Tree.WInv w)
     (h : (renderCompTag env fuel name kwargs only dyn body ctx).run.run w = (.error e, w1))
-    (hd2 : isDynName name2 = false) (hb2 : Djc.Proofs.Tree.fbody body2 = true) (hc2 : Djc.Proofs.Plain.ctxFree ctx2 = true)
+    (hd2 : isDynName name2 = false) (hb2 : Djc.Proofs.Tree.gbody body2 = true) (hc2 : Djc.Proofs.Plain.ctxFree ctx2 = true)
     (hext2 : isExtracting ctx2 = false)
     (hpar2 : Djc.Proofs.Tree.parentOf (if only2 || env.isolated then isolatedCopy ctx2 else ctx2) = none)
     (h2 : (renderCompTag env fuel2 name2 kwargs2 only2 dyn2 body2 ctx2).run.run w1 = (.ok toks, w2)) :
